@@ -25,10 +25,12 @@
 //	    runs the real engine.Engine (one pool). T = tokens of one rps profile (-1: not finite),
 //	    A = ammo items, K = tokens of the startup profile, cancel_ms > 0: the run context is
 //	    cancelled after that many ms, failgun = k > 0: the k-th NewGun call fails (1 = the warm-up
-//	    gun, 2 = the first instance, ...).  provrun: 0 = the provider's Run blocks until the run ends,
+//	    gun, 2 = the first instance, ...); b<k>: Bind of the gun made by the k-th NewGun call fails;
+//	    s<k>: the k-th call of the RPS schedule factory fails (per instance profiles: creation number
+//	    k; shared profile: the one call made before anything starts).  provrun: 0 = the provider's Run blocks until the run ends,
 //	    1 = it returns nil at once (all ammo already queued), 2 = it returns nil after 3 ms.  Observation:
 //	    "<outcome> <InstanceStart> <InstanceFinish> <ids> <distinct> <notahead> <ammo_out> <rps_fin>
-//	     <ext> <fail> <endclass> <conserved> <late> <onprofile>"
+//	     <ext> <fail> <endclass> <conserved> <late> <onprofile> <attempts>"
 //	    outcome    ok | cancelled | failed | hang
 //	    ids        sorted InstanceIDs the guns were bound with ("-" if none)
 //	    notahead   1 iff every gun with id k was bound at or after the instant of the k-th startup token
@@ -37,7 +39,10 @@
 //	               rps_fin is 2 when the schedule reported its end although it had NOT ended (fewer than T
 //	               Next calls begun / duration not elapsed)
 //	    endclass   exhausted (startup schedule's Next returned !ok) | cut
-//	    late       1 iff a gun was bound more than 100 ms after the first ammo_out / true rps_fin event
+//	    attempts   creations of instances begun (= ids handed out by the start loop): calls of the RPS
+//	               schedule factory (per instance profiles) / NewGun calls after the warm-up gun (shared)
+//	    late       1 iff a gun was bound more than 100 ms after the first ammo_out / true rps_fin /
+//	               failed-creation event
 //	               (once the start context is cancelled the loop may create at most one more instance)
 //	    onprofile  1 iff every gun with id k was bound at or after (instant just before the first Next of the
 //	               startup schedule) + (offset of token k in the CONFIGURED startup profile)
@@ -138,11 +143,18 @@ type world struct {
 }
 
 type gun struct {
-	w     *world
-	sleep time.Duration
+	w        *world
+	sleep    time.Duration
+	failBind func() // non-nil: Bind fails
 }
 
+var errBind = errors.New("gun bind failure (injected)")
+
 func (g *gun) Bind(_ core.Aggregator, deps core.GunDeps) error {
+	if g.failBind != nil {
+		g.failBind()
+		return errBind
+	}
 	now := time.Now()
 	g.w.mu.Lock()
 	g.w.binds = append(g.w.binds, bindRec{deps.InstanceID, now})
@@ -474,6 +486,18 @@ func runIstep(f []string) string {
 }
 
 var errFactory = errors.New("gun factory failure (injected)")
+var errSchedFactory = errors.New("rps schedule factory failure (injected)")
+
+// failgun field: "k" | "b<k>" | "s<k>"
+func parseFail(f string) (mode byte, k int) {
+	mode = 'g'
+	if len(f) > 0 && (f[0] == 'b' || f[0] == 's') {
+		mode = f[0]
+		f = f[1:]
+	}
+	k, _ = strconv.Atoi(f)
+	return
+}
 
 func runStart(f []string) string {
 	perInst := f[1] == "1"
@@ -481,7 +505,7 @@ func runStart(f []string) string {
 	A, _ := strconv.Atoi(f[4])
 	shootUs, _ := strconv.Atoi(f[7])
 	cancelMs, _ := strconv.Atoi(f[8])
-	failGun, _ := strconv.Atoi(f[9])
+	failMode, failGun := parseFail(f[9])
 	provRun, _ := strconv.Atoi(f[10])
 
 	w := &world{}
@@ -489,7 +513,8 @@ func runStart(f []string) string {
 	prov := &provider{left: A, cause: cc, runMode: provRun}
 	ag := &aggr{}
 	var rpsFin, rpsFalse, failed atomic.Bool
-	var gunCalls atomic.Int64
+	var gunCalls, schedCalls atomic.Int64
+	creationFailed := func() { failed.Store(true); cc.mark() }
 	metrics := engine.Metrics{
 		Request:        &monitoring.Counter{},
 		Response:       &monitoring.Counter{},
@@ -503,14 +528,24 @@ func runStart(f []string) string {
 		Aggregator: ag,
 		NewGun: func() (core.Gun, error) {
 			k := gunCalls.Add(1)
+			g := &gun{w: w, sleep: time.Duration(shootUs) * time.Microsecond}
 			if failGun > 0 && int(k) == failGun {
-				failed.Store(true)
-				return nil, errFactory
+				switch failMode {
+				case 'g':
+					creationFailed()
+					return nil, errFactory
+				case 'b':
+					g.failBind = creationFailed
+				}
 			}
-			return &gun{w: w, sleep: time.Duration(shootUs) * time.Microsecond}, nil
+			return g, nil
 		},
 		RPSPerInstance: perInst,
 		NewRPSSchedule: func() (core.Schedule, error) {
+			if k := schedCalls.Add(1); failMode == 's' && int(k) == failGun {
+				creationFailed()
+				return nil, errSchedFactory
+			}
 			r := newRPS(f[3], T, &rpsFin, &rpsFalse)
 			if !perInst {
 				r.cause = cc
@@ -618,9 +653,16 @@ func runStart(f []string) string {
 	} else if rpsFin.Load() && !perInst {
 		rpsF = "1"
 	}
-	return fmt.Sprintf("%s %d %d %s %s %s %s %s %s %s %s %s %s %s", outcome, started, metrics.InstanceFinish.Get(),
+	attempts := int(schedCalls.Load())
+	if !perInst {
+		attempts = int(gunCalls.Load()) - 1
+		if attempts < 0 {
+			attempts = 0
+		}
+	}
+	return fmt.Sprintf("%s %d %d %s %s %s %s %s %s %s %s %s %s %s %d", outcome, started, metrics.InstanceFinish.Get(),
 		idsS, vh.B(distinct), vh.B(notAhead), vh.B(prov.ammoOut.Load()), rpsF,
-		vh.B(extV), vh.B(failed.Load()), endclass, conserved, vh.B(late), vh.B(onProfile))
+		vh.B(extV), vh.B(failed.Load()), endclass, conserved, vh.B(late), vh.B(onProfile), attempts)
 }
 
 func runCase(c string) string {
@@ -687,6 +729,23 @@ func genStartup1(r *vh.Rand) string {
 	}
 }
 
+// which creation fails and how: the k-th NewGun call (lo <= k <= hi; 1 = warm-up gun, 2 = first instance),
+// Bind of that gun, or - per instance profiles - the RPS schedule factory for creation number k-1
+func genFail(r *vh.Rand, perInst bool, lo, hi int) string {
+	k := r.Range(lo, hi)
+	switch r.Intn(4) {
+	case 0:
+		if k >= 2 {
+			return fmt.Sprintf("b%d", k)
+		}
+	case 1:
+		if perInst && k >= 2 {
+			return fmt.Sprintf("s%d", k-1)
+		}
+	}
+	return strconv.Itoa(k)
+}
+
 func gen(r *vh.Rand, tier string) []string {
 	var out []string
 	// instance_step boundary grid + random
@@ -725,10 +784,23 @@ func gen(r *vh.Rand, tier string) []string {
 			out = append(out, "drain "+st)
 		}
 		perInst := r.Bool()
-		var T, A, shoot, cancelMs, failGun int
+		var T, A, shoot, cancelMs int
+		failGun := "0"
 		var rps string
 		shoot = r.PickInt([]int{0, 100, 500})
-		switch r.Intn(9) {
+		switch r.Intn(10) {
+		case 9: // an instance after the first cannot be created at once, the startup profile still has tokens for 300 ms
+			st = fmt.Sprintf("once:%d+const:100:300", r.Range(2, 4))
+			K = startupCount(st)
+			T = 40
+			rps = "const:200:200"
+			if perInst && r.Bool() {
+				T = r.Range(1, 4)
+				rps = fmt.Sprintf("once:%d", T)
+			}
+			A = 100000
+			shoot = r.PickInt([]int{0, 100})
+			failGun = genFail(r, perInst, 3, 3+r.Range(0, 1))
 		case 8: // shared composite rps profile of many small parts with empty pauses, instances racing at every boundary
 			perInst = false
 			k := r.Range(60, 150)
@@ -798,10 +870,10 @@ func gen(r *vh.Rand, tier string) []string {
 			T = 40
 			rps = "const:200:200"
 			A = 100000
-			failGun = r.Range(1, K+2)
+			failGun = genFail(r, perInst, 1, K+2)
 		}
 		provRun := r.PickInt([]int{0, 0, 1, 1, 2})
-		out = append(out, fmt.Sprintf("start %s %d %s %d %d %s %d %d %d %d", vh.B(perInst), T, rps, A, K, st, shoot, cancelMs, failGun, provRun))
+		out = append(out, fmt.Sprintf("start %s %d %s %d %d %s %d %d %s %d", vh.B(perInst), T, rps, A, K, st, shoot, cancelMs, failGun, provRun))
 	}
 	return out
 }
